@@ -957,6 +957,10 @@ func FuzzFraming(f *testing.F) {
 		f.Add([]byte(s), []byte{7, 200, 3, 90, 255, 1}, byte(0))
 		f.Add([]byte(s), []byte{}, byte(17))
 	}
+	// (found by the campaign of the thorough tier: a declared length no stream will
+	// ever deliver - the harness's own reader used to allocate it)
+	f.Add([]byte("g\nContent-Length:100000000000000\n\n"), []byte("0"), byte('u'))
+	f.Add([]byte(one+"INFO sip:h SIP/2.0\r\nCall-ID: huge\r\nContent-Length: 99999999999\r\n\r\nx"), []byte{3}, byte(0))
 	f.Fuzz(func(t *testing.T, stream []byte, gaps []byte, mode byte) {
 		if len(stream) == 0 || len(stream) > 1<<17 {
 			return
